@@ -153,7 +153,10 @@ theorem abstract_closed {g : Grammar} (hwf : WF g) : Closed (abstract g) := by
     | enable c => simp only [traitOf, List.mem_singleton] at hs; subst hs; exact mem_ids_node (hkids c (by simp [Kind.kids]))
     | disable c => simp only [traitOf, List.mem_singleton] at hs; subst hs; exact mem_ids_node (hkids c (by simp [Kind.kids]))
     | action f c => simp only [traitOf, List.mem_singleton] at hs; subst hs; exact mem_ids_node (hkids c (by simp [Kind.kids]))
+    | control kc c => simp only [traitOf, List.mem_singleton] at hs; subst hs; exact mem_ids_node (hkids c (by simp [Kind.kids]))
     | state d c => simp only [traitOf, List.mem_singleton] at hs; subst hs; exact mem_ids_node (hkids c (by simp [Kind.kids]))
+    | ifApply c acts => simp only [traitOf, List.mem_singleton] at hs; subst hs; exact mem_ids_node (hkids c (by simp [Kind.kids]))
+    | applyR acts => simp [traitOf] at hs
   · have ⟨hkids, hlinks⟩ := hk i hi
     simp only [entryOf] at hs
     generalize hkk : effKind g i = k at hs hkids hlinks hj
